@@ -779,6 +779,17 @@ def located(error, section):
     return bool(re.search(r'\nline \d+: \S', error))
 
 
+def raw_generic_known(route):
+    """Does the route carry a raw `attribute [ ... ]` whose code the real decoder has a class for?"""
+    from exabgp.bgp.message.update.attribute import Attribute, GenericAttribute
+
+    known = {code for (code, _flag) in Attribute.registered_attributes}
+    try:
+        return any(isinstance(a, GenericAttribute) and int(a.ID) in known for a in route.attributes.values())
+    except Exception:
+        return False
+
+
 def judge_routes(field, v, routes, entry, problems, stats, compare=True):
     """Encode every accepted route under every session kind, read the bytes back, compare the field."""
     fname = group_of(field)
@@ -808,6 +819,8 @@ def judge_routes(field, v, routes, entry, problems, stats, compare=True):
                 sig = f'accepted-but-cannot-encode:{fname}'
                 if 'requires nexthop' in info['msg'] or 'requires labels' in info['msg'] or 'unexpected nlri definition' in info['msg']:
                     sig = 'accepted-but-cannot-encode:incomplete-route'
+                elif info['cls'] == 'error' and info['where'].startswith('bgp/message/update/attribute/attribute.py'):
+                    sig = 'accepted-but-cannot-encode:attribute-over-65535-octets'
                 elif info['cls'] == 'RuntimeError' or 'too large' in info['msg'].lower():
                     sig = f'accepted-but-cannot-encode:{fname}:message-size'
                 problems.append((sig, f'{entry}: accepted, then {info["cls"]} "{info["msg"]}" at {info["where"]} while encoding for {sess.key}'))
@@ -833,12 +846,17 @@ def judge_routes(field, v, routes, entry, problems, stats, compare=True):
                 if d4:
                     stats['decoder_d4'] += 1
                     real_nlri = None
+                elif raw_generic_known(route):
+                    real_nlri = None
                 else:
                     problems.append((f'accepted-but-undecodable:{fname}', f'{entry}: the bytes sent for {sess.key} make the real decoder raise {info["cls"]} "{info["msg"]}" at {info["where"]}'))
                     return
-            raw_known = field is not None and field.name == 'attribute-code' and v in KNOWN_CODES
-            # (raw bytes under the code of an attribute the decoder knows are the operator's business: ORIGIN with
-            # the wrong flags is treat-as-withdraw on the reading side)
+            # `attribute [ code flags value ]` under a code the real decoder interprets: the octets written are the
+            # operator's business (ORIGIN with odd flags, a 2-octet attribute 25, ... are treat-as-withdraw for a reader);
+            # the property asks that they are carried as written - the own reader judges that, not ExaBGP's decoder
+            raw_known = raw_generic_known(route)
+            if raw_known:
+                stats['raw_generic_under_known_code'] += 1
             if real_nlri is not None and compare and not raw_known:
                 try:
                     want = str(sess.neighbor.resolve_self(route).nlri)
@@ -916,6 +934,8 @@ def judge_text(field, v, texts, stats, compare=True):
         stats['texts'] += 1
         stats['outcome_' + kind] += 1
         if kind == 'X':
+            if val['cls'] == 'AttributeError' and "'Empty' object" in val.get('msg', ''):
+                fname = 'split-without-nlri'
             problems.append((f'exception:{val["cls"]}:{fname}', f'{entry}: {val["cls"]} "{val.get("msg", "")}" at {val.get("where", "")} '
                              f'{"(" + val["phase"] + ")" if val.get("phase") else ""}'))
         elif kind == 'N':
@@ -1238,6 +1258,8 @@ def check(tier, seed):
         'acknowledged route is an exception outcome',
         'LOCAL_PREF is absent on eBGP, a path identifier without ADD-PATH and AIGP on plain eBGP are absent by design',
         'AS_PATH + AS4_PATH towards a 2-octet peer is read with the harness reader (the real decoder has its own defect there, C02)',
+        'a raw `attribute [ code flags value ]` under a code the real decoder has a class for is judged by the harness reader only: the '
+        'property asks that the octets are carried as written, not that the reading side finds them well formed (counted in raw_generic_under_known_code)',
     ]
     common.standard_build(run, ['T9'])
     rng = random.Random(seed)
@@ -1299,6 +1321,18 @@ def check(tier, seed):
     if kind != 'A':
         all_problems.append(('as-path-asn4-struct-error', f'as-path [ 65536 4294967295 ] is not accepted by parse_route_text: {val}',
                              {'texts': {'prt': 'route 10.0.0.0/24 next-hop 1.2.3.4 as-path [ 65536 4294967295 ]'}}))
+
+    # ---- 2a. texts every tier offers (found by the thorough stream first)
+    for fixed in ('attributes next-hop 1.2.3.4 split /33 nlri', 'attributes next-hop 1.2.3.4 split /24 nlri',
+                  'route 0.0.0.0/0 next-hop 1.2.3.4 attribute [ 0x19 0x6d 0x0102 ]', 'route 10.0.0.0/24 next-hop 1.2.3.4 attribute [ 0x01 0x40 0x07 ]'):
+        texts = {'prt': fixed, 'api': 'peer * announce ' + fixed}
+        if fixed.startswith('route'):
+            texts['conf'] = 'static { %s; }' % fixed
+        outcomes, problems = judge_text(None, None, texts, stats)
+        for e, o in outcomes.items():
+            outcome_hist[f'{e}:{o}'] += 1
+        for sig, what in problems:
+            all_problems.append((sig, what, {'texts': texts}))
 
     # ---- 2b. `split` expansion, in a child process (an unbounded expansion never answers)
     import subprocess
@@ -1447,7 +1481,7 @@ def check(tier, seed):
         'stream_outcomes': dict(stream_kinds),
         'per_field_outcomes': {k: dict(v) for k, v in per_field.items()},
         'encodings': stats['encodes'], 'field_comparisons': stats['compares'], 'real_decoder_skipped_as4_path_to_2_octet_peer': stats['decoder_d4'],
-        'value_parser_crashes_after_guards': dict(crash_hist),
+        'value_parser_crashes_after_guards': dict(crash_hist), 'raw_generic_under_known_code': stats['raw_generic_under_known_code'],
         'problem_kinds': {k: len(v) for k, v in by_class.items()},
         'sweep_wall_s': round(sweep_wall, 1), 'structured_forms': extra_cov,
         'exhaustive': False,
@@ -1873,6 +1907,22 @@ def size_cases(tier):
 
             out.append(('as-path', f'as-path-{n}-asns' + ('' if large_at is None else f'-4-octet-at-{large_at}'),
                         {'conf': 'static { %s; }' % text, 'prt': text, 'api': 'peer * announce ' + text}, True, chk, False))
+    # ---- attribute value across 65535 octets (the most the two-octet attribute length holds): n ASNs take
+    #      2 * ceil(n / 255) + 4 * n octets, 65534 for n = 16351 and 65538 for n = 16352
+    for n in (16351, 16352, 17000):
+        asns = [64512 + (i % 1000) for i in range(n)]
+        text = f'{BASE4} as-path [ {" ".join(str(a) for a in asns)} ]'
+
+        def chk(upd, sess, asns=asns):
+            p = attr(upd, 2)
+            segs = as_segments(p, 4 if sess.asn4 else 2) if p is not None else None
+            if not segs or any(t != 2 or not 1 <= len(l) <= 255 for t, l in segs):
+                return 'AS_PATH segments do not parse'
+            got = [a for _, l in segs for a in l]
+            return None if got == asns else f'AS_PATH carries {len(got)} ASNs, written {len(asns)}'
+
+        out.append(('attribute-over-65535', f'as-path-{n}-asns-{2 * -(-n // 255) + 4 * n}-octets',
+                    {'conf': 'static { %s; }' % text, 'prt': text, 'api': 'peer * announce ' + text}, 2 * -(-n // 255) + 4 * n <= 65535, chk, True))
     # ---- attribute value length across 255 octets (extended-length flag)
     def listcase(name, code, kw, items, raw_of, unit):
         text = f'{BASE4} {kw} [ {" ".join(items)} ]'
@@ -1940,7 +1990,7 @@ def judge_sizes(run, tier, stats):
                 found.append((f'exception:{cls}:size:{kind}', f'{entry}: {name}: {val}', {'name': name, 'texts': {entry: short}}))
                 continue
             if not sendable:
-                found.append((f'accepted-but-cannot-encode:size:{kind}', f'{entry}: {name} is accepted although no session can carry it (the wire length field cannot hold it)',
+                found.append(('accepted-but-cannot-encode:attribute-over-65535-octets' if kind == 'attribute-over-65535' else f'accepted-but-cannot-encode:size:{kind}', f'{entry}: {name} is accepted although no session can carry it (the wire length field cannot hold it)',
                               {'name': name, 'texts': {entry: short}}))
                 continue
             if len(val) != 1:
